@@ -140,6 +140,7 @@ Plan parse_plan(const std::string &text) {
             w.c.flags = (uint8_t)kv.u64("ff", 0);
             w.c.fd = kv.has("ff");
             w.c.dlc8 = (uint8_t)kv.u64("dlc8", 0);
+            w.c.junk = (uint16_t)kv.u64("junk", 0);
             auto d = sim::unhex(kv.str("data"));
             memcpy(w.c.data, d.data(), std::min<size_t>(d.size(), 64));
             w.c.tag = p.can.size();
